@@ -199,7 +199,7 @@ def run_case(spec, ctx, R):
                 # the other call forms of the same computation (two-value return with return_diagnostics omitted / False, verbose=True): what
                 # they return is judged by the same clauses (unitary Q, Q T Q^H = A within the tolerance-governed bound)
                 sweeps_ = budget + 1
-                sb_ = CS * n * (tol_eff(fn, kw, tol, n) * max(1.0, nrm) + EPS * (sweeps_ + n) * nrm) + 1e-300
+                sb_ = CS * n * tol_eff(fn, kw, tol, n) * max(1.0, nrm) + C * n * EPS * (sweeps_ + n) * nrm + 1e-300
                 for form, extra in (("plain_return", {}), ("verbose", {"verbose": True, "return_diagnostics": True}),
                                     ("diagnostics_false", {"return_diagnostics": False})):
                     try:
@@ -229,7 +229,10 @@ def run_case(spec, ctx, R):
             ctx.check("Q_unitary", refq.orth_err(Q), C * n * EPS * (sweeps + n), site=site, tags=[cls], detail=det)
             # calibrated: worst observed ratio on the unchanged tree with constant 1e3 was 6e-4 (all variants, 5 seeds, both tiers),
             # so 30 leaves a factor ~50 of head-room while a deflation threshold that is wrong by the scale of A is far outside
-            sb = CS * n * (te * max(1.0, nrm) + EPS * (sweeps + n) * nrm) + 1e-300
+            # two parts: what the deflation tolerance permits (calibrated constant CS = 30) and accumulated rounding of the sweeps (the generic
+            # constant C = 1e3 of section 5: with the caller's tolerance at 1e-14 the first part vanishes and 300 non-converging sweeps of the
+            # real-expansion variant reach 90 eps n sweeps ||A||, measured on the unchanged tree)
+            sb = CS * n * te * max(1.0, nrm) + C * n * EPS * (sweeps + n) * nrm + 1e-300
             ctx.check("similarity", refq.fro(refq.matmul(refq.matmul(Q, T), refq.herm(Q)) - A), sb, site=site, tags=[cls], detail=det)
             if bool(dg["converged"]):
                 ctx.hit("flag:converged")
